@@ -336,7 +336,7 @@ def norm_ir(target, params):
             else:
                 return None
         return out
-    isz = lambda p: int(p[1:]) // 8
+    isz = lambda p: max(1, int(p[1:]) // 8)
     if target == "aarch64":
         if len(ps) != 1:
             return None
